@@ -60,7 +60,7 @@ func run(c *vf.Ctx) {
 		x.Run()
 		x.Report(n + "/")
 	}
-	c.RequireFeature("attack_rejected", "control_accepted", "attack:same-block", "attack:same-block-after-revision", "attack:same-tx", "attack:next-block-stale", "attack:next-block-updated", "attack:next-block-ephemeral", "attack:same-block-alias", "attack:reorg",
+	c.RequireFeature("attack_rejected", "control_accepted", "attack:same-block", "attack:same-block-after-revision", "attack:same-tx", "attack:next-block-stale", "attack:next-block-updated", "attack:next-block-ephemeral", "attack:next-block-revised-form", "attack:same-block-alias", "attack:reorg",
 		"kind:sc-v1addr", "kind:sc-v2addr", "kind:sc-nosig", "kind:sf-nosig", "kind:sf", "kind:fc", "kind:v2fc", "kind:ephemeral")
 	c.Assume("every attack block is built by the harness' own builder: correct parent, timestamp, commitment/Merkle root, miner payout and nonce; the control experiment (same block without the second use) must be accepted, so an attack cannot be rejected merely for being badly sealed")
 }
@@ -80,6 +80,9 @@ func attacks(c *vf.Ctx, x *chain.Explorer, w *chain.World, path []string) {
 	type target struct {
 		kind string
 		uses []useGen
+		// revised: the use generators for the same contract presented in its REVISED form (revision ur applied by
+		// update au): element contents = the revision, proof maintained through au
+		revised func(ur chain.Use, au consensus.ApplyUpdate) []useGen
 	}
 	var targets []target
 
@@ -92,7 +95,7 @@ func attacks(c *vf.Ctx, x *chain.Explorer, w *chain.World, path []string) {
 		if v2ok {
 			us = append(us, useGen{"v2spend", func(w *chain.World, tag byte) (chain.Use, bool) { return w.UseV2SC(p, tag), true }, v2app})
 		}
-		targets = append(targets, target{"sc-v1addr", us})
+		targets = append(targets, target{"sc-v1addr", us, nil})
 	}
 	// outputs whose unlock conditions need no signature at all (authorisation-shape variant of the same attack)
 	if p, ok := bc.PickSC(func(cl int) bool { return cl == chain.AddrNoSig }, types.Siacoins(10)); ok {
@@ -103,7 +106,7 @@ func attacks(c *vf.Ctx, x *chain.Explorer, w *chain.World, path []string) {
 		if v2ok {
 			us = append(us, useGen{"v2spend", func(w *chain.World, tag byte) (chain.Use, bool) { return w.UseV2SC(p, tag), true }, v2app})
 		}
-		targets = append(targets, target{"sc-nosig", us})
+		targets = append(targets, target{"sc-nosig", us, nil})
 	}
 	if p, ok := bc.PickSF(func(cl int) bool { return cl == chain.AddrNoSig }); ok {
 		var us []useGen
@@ -113,10 +116,10 @@ func attacks(c *vf.Ctx, x *chain.Explorer, w *chain.World, path []string) {
 		if v2ok {
 			us = append(us, useGen{"v2sfspend", func(w *chain.World, tag byte) (chain.Use, bool) { return w.UseV2SF(p, tag), true }, v2app})
 		}
-		targets = append(targets, target{"sf-nosig", us})
+		targets = append(targets, target{"sf-nosig", us, nil})
 	}
 	if p, ok := bc.PickSC(func(cl int) bool { return cl == chain.AddrV2 }, types.Siacoins(10)); ok && v2ok {
-		targets = append(targets, target{"sc-v2addr", []useGen{{"v2spend", func(w *chain.World, tag byte) (chain.Use, bool) { return w.UseV2SC(p, tag), true }, v2app}}})
+		targets = append(targets, target{"sc-v2addr", []useGen{{"v2spend", func(w *chain.World, tag byte) (chain.Use, bool) { return w.UseV2SC(p, tag), true }, v2app}}, nil})
 	}
 	if p, ok := bc.PickSF(func(cl int) bool { return cl == chain.AddrV1 }); ok {
 		var us []useGen
@@ -126,27 +129,68 @@ func attacks(c *vf.Ctx, x *chain.Explorer, w *chain.World, path []string) {
 		if v2ok {
 			us = append(us, useGen{"v2sfspend", func(w *chain.World, tag byte) (chain.Use, bool) { return w.UseV2SF(p, tag), true }, v2app})
 		}
-		targets = append(targets, target{"sf", us})
+		targets = append(targets, target{"sf", us, nil})
 	}
 	// v1 contracts: every live contract (few)
+	v1Uses := func(fce types.FileContractElement, fc types.FileContract) []useGen {
+		var us []useGen
+		if fc.RevisionNumber < 1<<62 {
+			us = append(us, useGen{"v1revise", func(w *chain.World, tag byte) (chain.Use, bool) { return w.UseV1Revise(fce, fc, uint64(tag)), true },
+				func(n *consensus.Network, h uint64) bool { return v1app(n, h) && fc.WindowStart >= h }})
+		}
+		us = append(us, useGen{"v1proof", func(w *chain.World, tag byte) (chain.Use, bool) { return w.UseV1Proof(fce, fc) },
+			func(n *consensus.Network, h uint64) bool { return v1app(n, h) && fc.WindowStart <= h && h < fc.WindowEnd }})
+		return us
+	}
 	if v1ok {
 		for _, e := range w.Ref.Live(chain.KFC) {
 			fce, ok := w.Store.FC[types.FileContractID(e.ID)]
 			if !ok {
 				continue
 			}
-			fc := fce.FileContract
-			var us []useGen
-			if fc.RevisionNumber < 1<<62 {
-				us = append(us, useGen{"v1revise", func(w *chain.World, tag byte) (chain.Use, bool) { return w.UseV1Revise(fce, fc, uint64(tag)), true },
-					func(n *consensus.Network, h uint64) bool { return v1app(n, h) && fc.WindowStart >= h }})
-			}
-			us = append(us, useGen{"v1proof", func(w *chain.World, tag byte) (chain.Use, bool) { return w.UseV1Proof(fce, fc) },
-				func(n *consensus.Network, h uint64) bool { return v1app(n, h) && fc.WindowStart <= h && h < fc.WindowEnd }})
-			if len(us) > 0 {
-				targets = append(targets, target{"fc", us})
+
+			if us := v1Uses(fce, fce.FileContract); len(us) > 0 {
+				targets = append(targets, target{"fc", us, func(ur chain.Use, au consensus.ApplyUpdate) []useGen {
+					if ur.V1 == nil || len(ur.V1.FileContractRevisions) != 1 {
+						return nil
+					}
+					r := fce.Copy()
+					r.FileContract = ur.V1.FileContractRevisions[0].FileContract
+					r.FileContract.Payout = fce.FileContract.Payout
+					au.UpdateElementProof(&r.StateElement)
+					return v1Uses(r, r.FileContract)
+				}})
 			}
 		}
+	}
+	v2Uses := func(fce types.V2FileContractElement) []useGen {
+		fc := fce.V2FileContract
+		var us []useGen
+		early := func(n *consensus.Network, h uint64) bool { return v2app(n, h) && fc.ProofHeight >= h }
+		if fc.RevisionNumber < 1<<62 {
+			us = append(us, useGen{"v2revise", func(w *chain.World, tag byte) (chain.Use, bool) { return w.UseV2Revise(fce, fc, uint64(tag)), true }, early})
+			us = append(us, useGen{"v2renew", func(w *chain.World, tag byte) (chain.Use, bool) {
+				bc2 := w.NewBlockCtx()
+				// pick a funding output distinct per tag so that the two renewals do not also collide on funding
+				var f types.SiacoinElement
+				var ok bool
+				for i := byte(0); i <= tag%2; i++ {
+					f, ok = bc2.PickSC(func(cl int) bool { return cl == chain.AddrACS || cl == chain.AddrV2 }, types.Siacoins(200))
+					if ok {
+						bc2.Used[types.Hash256(f.ID)] = true
+					}
+				}
+				if !ok {
+					return chain.Use{}, false
+				}
+				return w.UseV2Renew(fce, f)
+			}, early})
+		}
+		us = append(us, useGen{"v2proof", func(w *chain.World, tag byte) (chain.Use, bool) { return w.UseV2Proof(fce) },
+			func(n *consensus.Network, h uint64) bool { return v2app(n, h) && h >= fc.ProofHeight+1 }})
+		us = append(us, useGen{"v2expire", func(w *chain.World, tag byte) (chain.Use, bool) { return w.UseV2Expire(fce), true },
+			func(n *consensus.Network, h uint64) bool { return v2app(n, h) && h > fc.ExpirationHeight }})
+		return us
 	}
 	if v2ok {
 		for _, e := range w.Ref.Live(chain.KV2FC) {
@@ -154,34 +198,17 @@ func attacks(c *vf.Ctx, x *chain.Explorer, w *chain.World, path []string) {
 			if !ok {
 				continue
 			}
-			fc := fce.V2FileContract
-			var us []useGen
-			early := func(n *consensus.Network, h uint64) bool { return v2app(n, h) && fc.ProofHeight >= h }
-			if fc.RevisionNumber < 1<<62 {
-				us = append(us, useGen{"v2revise", func(w *chain.World, tag byte) (chain.Use, bool) { return w.UseV2Revise(fce, fc, uint64(tag)), true }, early})
-				us = append(us, useGen{"v2renew", func(w *chain.World, tag byte) (chain.Use, bool) {
-					bc2 := w.NewBlockCtx()
-					// pick a funding output distinct per tag so that the two renewals do not also collide on funding
-					var f types.SiacoinElement
-					var ok bool
-					for i := byte(0); i <= tag%2; i++ {
-						f, ok = bc2.PickSC(func(cl int) bool { return cl == chain.AddrACS || cl == chain.AddrV2 }, types.Siacoins(200))
-						if ok {
-							bc2.Used[types.Hash256(f.ID)] = true
-						}
+
+			if us := v2Uses(fce); len(us) > 0 {
+				targets = append(targets, target{"v2fc", us, func(ur chain.Use, au consensus.ApplyUpdate) []useGen {
+					if ur.V2 == nil || len(ur.V2.FileContractRevisions) != 1 {
+						return nil
 					}
-					if !ok {
-						return chain.Use{}, false
-					}
-					return w.UseV2Renew(fce, f)
-				}, early})
-			}
-			us = append(us, useGen{"v2proof", func(w *chain.World, tag byte) (chain.Use, bool) { return w.UseV2Proof(fce) },
-				func(n *consensus.Network, h uint64) bool { return v2app(n, h) && h >= fc.ProofHeight+1 }})
-			us = append(us, useGen{"v2expire", func(w *chain.World, tag byte) (chain.Use, bool) { return w.UseV2Expire(fce), true },
-				func(n *consensus.Network, h uint64) bool { return v2app(n, h) && h > fc.ExpirationHeight }})
-			if len(us) > 0 {
-				targets = append(targets, target{"v2fc", us})
+					r := fce.Copy()
+					r.V2FileContract = ur.V2.FileContractRevisions[0].Revision
+					au.UpdateElementProof(&r.StateElement)
+					return v2Uses(r)
+				}})
 			}
 		}
 	}
@@ -274,6 +301,26 @@ func attacks(c *vf.Ctx, x *chain.Explorer, w *chain.World, path []string) {
 					// (b') revision, first use, second use in three transactions of one block
 					if ur != nil {
 						try("same-block-after-revision", w, *ur, u1, u2)
+					}
+				}
+				// (f) the block [revision, first use] applied; the second use arrives in the NEXT block and presents the
+				// contract in its REVISED form with a proof maintained through that block's update (a resolution that the
+				// in-block bookkeeping of a revised-then-resolved contract failed to record leaves exactly that leaf "live")
+				if ur != nil && t.revised != nil {
+					bp, bsp := w.BlockOfUses(*ur, u1)
+					wr := w.Clone()
+					if err, p := wr.ApplyFrom(w, bp, bsp); err == nil && p == nil {
+						aur := lastUpdate(w, bp, bsp)
+						for _, gr := range t.revised(*ur, aur) {
+							if gr.name != g2.name || !gr.app(w.Net, h+1) {
+								continue
+							}
+							if u2r, ok := gr.gen(wr, 2); ok {
+								try("next-block-revised-form", wr, u2r)
+							}
+						}
+					} else if p != nil {
+						x.Violate(p.Sig, p.Desc, path)
 					}
 				}
 				if !nextBlockOK {
